@@ -139,6 +139,12 @@ pub struct ModelSpec {
     /// index offsets) are shifted by 64 x this many bytes, so that they disagree with the copies it does use
     #[serde(default)]
     pub skew_unused_copies: u8,
+    /// terrain shadow tables (background models): number of 20-byte mesh records stored between the attribute
+    /// offsets and the sub-mesh table, and of 12-byte sub-mesh records stored behind the sub-mesh table
+    #[serde(default)]
+    pub ts_meshes: u8,
+    #[serde(default)]
+    pub ts_submeshes: u16,
 }
 
 #[derive(Clone, Debug, PartialEq)]
@@ -408,11 +414,11 @@ pub fn encode(m: &ModelSpec) -> Built {
         r.u8(m.lods.len() as u8);
         r.u8(1u8 << (m.flags1_bit % 8));
         r.u16(m.element_ids as u16);
-        r.u8(0); // terrain shadow meshes
+        r.u8(m.ts_meshes); // terrain shadow meshes
         r.u8(if m.flags2_bit % 9 == 8 { 0 } else { 1u8 << (m.flags2_bit % 9) });
         r.f32(100.0).f32(200.0);
         r.u16((m.seed >> 8) as u16);
-        r.u16(0); // terrain shadow sub-meshes
+        r.u16(m.ts_submeshes); // terrain shadow sub-meshes
         r.u8((m.seed >> 16) as u8).u8((m.seed >> 24) as u8).u8((m.seed >> 32) as u8).u8((m.seed >> 40) as u8);
         r.u16(1).u16(2).u16(3).zeros(6);
         for i in 0..m.element_ids as u32 {
@@ -448,8 +454,15 @@ pub fn encode(m: &ModelSpec) -> Built {
         for o in &attr_offs {
             r.u32(*o);
         }
+        for k in 0..m.ts_meshes as u32 {
+            // index count, start index, vertex buffer offset, vertex count, sub-mesh index, sub-mesh count, stride, padding
+            r.u32(900 + 7 * k).u32(31 * k + 5).u32(4000 + 16 * k).u16(300 + k as u16).u16(k as u16).u16(1).u8(8).u8(0);
+        }
         for (off, cnt, mask, bs, bc) in &submesh_records {
             r.u32(*off).u32(*cnt).u32(*mask).u16(*bs).u16(*bc);
+        }
+        for k in 0..m.ts_submeshes as u32 {
+            r.u32(77 + 13 * k).u32(600 + k).u16(k as u16).u16(0xEE00 | k as u16);
         }
         for o in &mat_offs {
             r.u32(*o);
